@@ -94,6 +94,10 @@ fn prim(op: &str, m: &Kv, regs: &Regs) -> Result<String, String> {
                     let key = b(m, "key", regs)?;
                     let data = b(m, "data", regs)?;
                     let mut out = [0_u8; 64];
+                    if m.contains_key("pre") {
+                        // stale pending input on the same object: hmac() is documented to clobber it
+                        h.input(&b(m, "pre", regs)?);
+                    }
                     h.hmac(&key, &data, &mut out);
                     Ok(format!("res=ok out={}", hex(&out[..hl])))
                 },
@@ -102,6 +106,9 @@ fn prim(op: &str, m: &Kv, regs: &Regs) -> Result<String, String> {
                     let ikm = b(m, "ikm", regs)?;
                     let n: usize = num(m, "n")?;
                     let (mut o1, mut o2, mut o3) = ([0_u8; 64], [0_u8; 64], [0_u8; 64]);
+                    if m.contains_key("pre") {
+                        h.input(&b(m, "pre", regs)?);
+                    }
                     h.hkdf(&ck, &ikm, n, &mut o1, &mut o2, &mut o3);
                     Ok(format!("res=ok out1={} out2={} out3={}", hex(&o1[..hl]), hex(&o2[..hl]), hex(&o3[..hl])))
                 },
